@@ -296,8 +296,27 @@ Definition step_rt (s : srt) (o : line) : srt * list bytes :=
     | Some f => (s, url_obs (f_url (rt s) f (argb 2 o) (arg 3 o) ps))
     end
   else if beqb op (bs "c19eq") then (s, [bs "1"])     (* facade run == desugared run, observation by observation *)
-  else if beqb op (bs "creq") then (s, creq_obs s o)
-  else if beqb op (bs "script") then (s, script_obs s o)
+  (* outside the modelled fragment (an audit of the model against the source, DESIGN section 10): regexp rules see
+     runes where the model sees bytes; strings.EqualFold / TrimSpace on the requested header names are Unicode-aware;
+     http.Header canonicalises keys; the CORS headers are written before a handler script runs *)
+  else if beqb op (bs "creq") then
+    if (negb (ascii_bytes (arg 2 o)) && tree_has_regexp (rtree (rt s))) || negb (ascii_bytes (arg 5 o)) then (s, [bs "unsup"])
+    else (s, creq_obs s o)
+  else if beqb op (bs "script") then
+    let evs := fst (take_list (skipn 2 a)) in
+    let canonical_key (k : bytes) :=
+      (* Xxx-Yyy: an upper-case or non-letter first byte of every dash-separated part, no upper-case elsewhere *)
+      forallb (fun part => match part with
+                           | [] => true
+                           | c :: rest => negb ((96 <? c) && (c <? 123)) && forallb (fun d => negb ((64 <? d) && (d <? 91))) rest
+                           end) (split_byte 45 k) && ascii_bytes k in
+    let keys_ok := (fix go (l : list bytes) : bool :=
+                      match l with
+                      | k :: x :: _ :: l' => (if beqb k (bs "S") || beqb k (bs "A") || beqb k (bs "D") then canonical_key x else true) && go l'
+                      | _ => true
+                      end) evs in
+    if (negb (ascii_bytes (arg 1 o)) && tree_has_regexp (rtree (rt s))) || negb keys_ok || negb (c_deny (rcors s))
+    then (s, [bs "unsup"]) else (s, script_obs s o)
   else if beqb op (bs "tracehelper") then
     (* the escaped dump is an input: httputil.DumpRequest and html.EscapeString are outside the model *)
     (s, writer_obs (run_get [] (trace_script (Some []) (fun _ => arg 8 o))) ++ [bs "body"; arg 8 o])
@@ -616,7 +635,9 @@ Definition handle_clauses (s : srt) (o : line) (r : list bytes) : list bytes :=
         outside the property's quantifier, and can be the twin of a well-formed pattern) *)
      match live_toks s with
      | Some _ =>
-       check (accepted || negb mvalid || dup || negb (match twins with [] => true | _ => false end))
+       (* a segment longer than the int16 limit is rejected for its length, not as ambiguous *)
+       check (accepted || negb mvalid || dup || negb (match twins with [] => true | _ => false end) ||
+              N.leb 32000 (N.of_nat (length p)))
              "C17:rejected-as-ambiguous-without-a-twin"
      | None => []
      end
@@ -888,7 +909,13 @@ Definition tags_rt (s s' : srt) (o : line) (r : list bytes) : list bytes :=
 Definition step_rt' (s : srt) (o : line) : srt * list bytes :=
   if unsup s then (s, [bs "unsup"]) else
   let '(s', obs) := step_rt s o in
-  if beqb (arg 0 o) (bs "handle") && negb (lines_eqb obs [bs "ok"]) &&
+  let rejected_handle := beqb (arg 0 o) (bs "handle") && negb (lines_eqb obs [bs "ok"]) in
+  (* While a pattern outside the well-formed fragment is LIVE, a rejected Handle may leave the implementation's tree
+     split where the model's is untouched (longestPrefix can stop inside "{{"): later URL / dispatch observations of
+     such a case are neither compared nor judged.  (With only well-formed patterns live, rejected calls are proved
+     and observed to change nothing.) *)
+  if rejected_handle && negb (allwf s) then (s' <| unsup := true |>, obs)
+  else if rejected_handle &&
      match classify (c_ic (tc s)) (full_pattern s (arg 1 o) (arg 2 o)) with PWf _ => false | _ => true end
   then (s' <| shapeunk := true |>, obs) else (s', obs).
 
